@@ -41,9 +41,14 @@ func RunReplay(funcs map[string]func()) {
 		out := RunOne(f, &v.Vector)
 		// counterexamples that depend on Go's map iteration order: retry until the order
 		// the engine chose occurs (bounded)
+		want := v.Kind + " " + v.Label
 		if v.Params["__maporders"] == "1" {
-			want := v.Kind + " " + v.Label
 			for try := 0; try < 400 && out != want; try++ {
+				out = RunOne(f, &v.Vector)
+			}
+		} else if v.Kind == "assert" {
+			// pty timing can vary natively: give an assertion counterexample three more tries
+			for try := 0; try < 3 && out != want; try++ {
 				out = RunOne(f, &v.Vector)
 			}
 		}
